@@ -28,6 +28,7 @@ import itertools
 import json
 import os
 import re
+import resource
 import select
 import shutil
 import signal
@@ -242,7 +243,14 @@ def check_merges(dag, assign, acc, base_dir):
                 except Exception as e:  # noqa
                     got = ("raises", type(e).__name__)
                     if ref != got:
-                        acc.violation(sig_exc("merge-" + kind.split("-")[0], e), dict(d, error=str(e)[:300]))
+                        kc = ""
+                        with src.repository.lock_read():
+                            lca_id = src.repository.get_graph().find_unique_lca(ids[other], ids[this])
+                        li = ids.index(lca_id) if lca_id in ids else None
+                        bundled = ancestors(dag, other) - (ancestors(dag, li) if li is not None else set())
+                        if kind_change_in_bundle(dag, assign, li, bundled):
+                            kc = ":kind-change-in-bundle"
+                        acc.violation(sig_exc("merge-" + kind, e) + kc, dict(d, error=str(e)[:300]))
                         continue
                 acc.count("merge_comparisons")
                 if got != ref:
@@ -370,17 +378,20 @@ TAMPER_HISTORIES = (
 )
 
 
-HANG_SECONDS = 8
+HANG_CPU_SECONDS = 5      # CPU time (not wall time: the machine may be loaded) granted to one read+install attempt
+WALL_LIMIT = 1200
 
 
-def run_isolated(fn, timeout):
-    """Run fn() in a forked child (the reader under test may loop forever inside native code, where no
-    Python-level watchdog can interrupt it); returns fn's JSON-able result, or None when killed."""
+def run_isolated(fn):
+    """Run fn() in a forked child whose CPU time is limited by the kernel (the reader under test may loop for ever
+    inside native code, where no Python-level watchdog can interrupt it).  Returns fn's JSON-able result, or None
+    when the child was killed for exceeding the CPU limit."""
     r, w = os.pipe()
     pid = os.fork()
     if pid == 0:
         try:
             os.close(r)
+            resource.setrlimit(resource.RLIMIT_CPU, (HANG_CPU_SECONDS, HANG_CPU_SECONDS + 1))
             try:
                 res = fn()
             except BaseException as e:  # noqa
@@ -390,20 +401,24 @@ def run_isolated(fn, timeout):
             os._exit(0)
     os.close(w)
     try:
-        ready, _, _ = select.select([r], [], [], timeout)
-        if not ready:
-            os.kill(pid, signal.SIGKILL)
-            return None
         data = b""
         while True:
+            ready, _, _ = select.select([r], [], [], WALL_LIMIT)
+            if not ready:
+                os.kill(pid, signal.SIGKILL)
+                raise HarnessError("tamper attempt exceeded %d s wall without using its CPU allowance" % WALL_LIMIT)
             chunk = os.read(r, 65536)
             if not chunk:
                 break
             data += chunk
-        return json.loads(data.decode("utf-8"))
     finally:
         os.close(r)
-        os.waitpid(pid, 0)
+        _, status = os.waitpid(pid, 0)
+    if data:
+        return json.loads(data.decode("utf-8"))
+    if os.WIFSIGNALED(status) and os.WTERMSIG(status) in (signal.SIGXCPU, signal.SIGKILL):
+        return None
+    raise HarnessError("tamper child ended with status %r and no result" % (status,))
 
 
 def norm_patch(p):
@@ -449,6 +464,21 @@ def build_artefact(kind, repo_fmt, bfmt, hidx):
         text = b"".join(md.to_lines())
     with src.repository.lock_read():
         want = {r: testaments(src.repository, r) for r in ids}
+    # warm-up (lazy imports) with the untouched artefact on a scratch copy; it must install cleanly
+    warm = mw.make_branch(store.transport("warm"), repo_fmt)
+    if b is not None:
+        warm.pull(src, stop_revision=ids[b])
+    if kind == "bundle":
+        from breezy.bzr.bundle.serializer import read_bundle
+        read_bundle(BytesIO(text)).install_revisions(warm.repository)
+    else:
+        md2 = merge_directive.MergeDirective.from_lines(text.splitlines(True))
+        md2.install_revisions(warm.repository)
+        if md2.get_merge_request(warm.repository)[2] != "verified":
+            raise HarnessError("untouched directive does not verify")
+    with warm.repository.lock_read():
+        if testaments(warm.repository, ids[t]) != want[ids[t]]:
+            raise HarnessError("untouched artefact does not reproduce the target")
     snap = store.walk()
     return (store, src, ids, want, text, snap, list(mutations(text)))
 
@@ -510,11 +540,11 @@ def _work_t(chunk):
                         except Exception as e:  # noqa
                             return ["undetected", "installed-revision-unreadable:" + type(e).__name__, r.decode("latin-1")]
                 return ["harmless", None, None]
-            res = run_isolated(attempt, HANG_SECONDS)
+            res = run_isolated(attempt)
             tag = kind if kind != "bundle" else "v" + bfmt
             if res is None:
                 outcome = "hang"
-                acc.violation("tamper:reader-does-not-terminate:%s" % tag, dict(d, seconds=HANG_SECONDS))
+                acc.violation("tamper:reader-does-not-terminate:%s" % tag, dict(d, cpu_seconds=HANG_CPU_SECONDS))
             elif res[0] == "harness-error":
                 raise HarnessError(res[1])
             else:
